@@ -452,11 +452,58 @@ def disc_names(img, ext, ln):
     return out
 
 
+class Instrument:
+    """record, while open_fp runs, where the walk first leaves the modelled fragment (nothing is changed in /repo:
+    three methods are wrapped for the duration of one call)"""
+
+    def __init__(self):
+        self.events = []
+
+    def __enter__(self):
+        import pycdlib.dr as drmod
+        import pycdlib.rockridge as rrmod
+        self.saved = (drmod.XARecord.parse, rrmod.RockRidge.parse, drmod.DirectoryRecord.track_child, drmod, rrmod)
+        xa, rr, tc = self.saved[:3]
+        ev = self.events
+
+        def xa_parse(obj, xastr, len_fi):
+            try:
+                found = xa(obj, xastr, len_fi)
+            except Exception:
+                ev.append(1)
+                raise
+            if found:
+                ev.append(1)
+            return found
+
+        def rr_parse(obj, *args, **kwargs):
+            ev.append(1)
+            return rr(obj, *args, **kwargs)
+
+        def track_child(obj, child, lbs, allow_duplicate=False):
+            if allow_duplicate:
+                ev.append(2)
+            return tc(obj, child, lbs, allow_duplicate)
+        drmod.XARecord.parse, rrmod.RockRidge.parse, drmod.DirectoryRecord.track_child = xa_parse, rr_parse, track_child
+        return self
+
+    def __exit__(self, *exc):
+        xa, rr, tc, drmod, rrmod = self.saved
+        drmod.XARecord.parse, rrmod.RockRidge.parse, drmod.DirectoryRecord.track_child = xa, rr, tc
+        return False
+
+
 def hostile_outcome(img):
     iso = pycdlib.PyCdlib()
-    try:
-        iso.open_fp(io.BytesIO(img))
-    except Exception as err:  # pylint: disable=broad-except
+    with Instrument() as ins:
+        try:
+            iso.open_fp(io.BytesIO(img))
+            err = None
+        except Exception as e:  # pylint: disable=broad-except
+            err = e
+    if ins.events:
+        return ('outside', ins.events[0])
+    if err is not None:
         return ('invalid', classify(err))
     ino_index = {id(ino): k for k, ino in enumerate(iso.inodes)}
     root = iso.pvd.root_directory_record()
@@ -487,6 +534,8 @@ def render_hostile(case):
         dirs, inodes, level = val
         ex = 'HOk ([%s], [%s], %d)' % ('; '.join('[%s]' % '; '.join(coq_erec(r) for r in d) for d in dirs),
                                        '; '.join('(%d, %d)' % x for x in inodes), level)
+    elif kind == 'outside':
+        ex = 'HOutside %d' % val
     else:
         ex = 'HInvalid %d' % val
     body = '; '.join('(%d, %s)' % (z, zl(lit)) for z, lit in mc.rle(img))
